@@ -98,6 +98,8 @@ def evaluate(case: Dict[str, Any]) -> Dict[str, Any]:
     for j in idx[:case["max_restart"]]:
         if j + 1 >= K:
             continue
+        if kw.get("gradient_scaler") is not None:
+            break      # restart together with a scaler: known finding K1 (C05), not this clause
         st = full.rec.cb[j]["state"]
         nxt = full.rec.cb[j + 1]["state"]
         if int(nxt.nit) != int(st.nit) + 1:
@@ -142,7 +144,8 @@ def evaluate(case: Dict[str, Any]) -> Dict[str, Any]:
 
 def features(r):
     return {"jac": r.choice(["callable"] * 3 + ["2-point", "3-point"]), "callback": "false",
-            "ftarget": "none", "gtol_callable": False, "scaler": "none", "update": "none"}
+            "ftarget": "none", "gtol_callable": False, "scaler": r.choice(["none", "none", "const"]), "s": 10 ** r.uniform(-2, 2),
+            "update": "none"}
 
 
 def run(tier: str, seed: int) -> int:
@@ -158,7 +161,7 @@ def run(tier: str, seed: int) -> int:
         rule="for each explored run every iteration k is a crash point: the state handed to the callback (serialised at that moment and "
              "again at the end of the run) is compared with the result of a separate run with maxiter=k, the run is compared with a run "
              "without callback, and a restart from the kept state must reproduce the next iterate; non-trivial = at least two crash points",
-        assumptions=["objectives finite-valued on the box", "no update_fun_def, no scaler (C13 / C17)"])
+        assumptions=["objectives finite-valued on the box", "no update_fun_def (C13)", "a third of the runs use a gradient scaler (state k against the run with maxiter=k, frozen state, transparent callback); the crash-recovery clause is checked without scaler (K1)"])
 
 
 def replay(path: str) -> int:
